@@ -44,6 +44,12 @@ type Choices struct {
 	// ObjStmPad adds white space inside object streams (before /First and
 	// between the objects).
 	ObjStmPad bool
+	// ObjStmTight writes object streams with the least white space: single
+	// spaces in the offset table and between the objects, and *nothing*
+	// between the table and the first object when that object starts with a
+	// delimiter (<<, [, (, <, /): /First equals the length of the table and
+	// the first offset is 0.  Overrides ObjStmPad.
+	ObjStmTight bool
 	// StreamKwEOL: 0 LF, 1 CR LF after the stream keyword.
 	StreamKwEOL int
 	// EndstreamEOL: 0 LF, 1 CR, 2 CR LF before endstream.
@@ -111,6 +117,7 @@ func PickChoices(seed int64) Choices {
 	c.AutoFreeRetired = r.Intn(2) == 0
 	c.FreeHead = r.Intn(2) == 0
 	c.FinalEOL = r.Intn(4) != 0
+	c.ObjStmTight = r.Intn(3) == 0 // (drawn last: the choices above are as before)
 	return c
 }
 
@@ -421,8 +428,13 @@ func deflate(b []byte) []byte {
 func (r *renderer) objStm(num uint32, ops []*Op) *phys {
 	sub := &writer{rng: r.rng, sx: r.c.Syntax}
 	var offs []int
+	tight := r.c.ObjStmTight
 	for i, op := range ops {
-		if i > 0 || r.c.ObjStmPad {
+		if tight {
+			if i > 0 {
+				sub.buf.WriteByte(' ')
+			}
+		} else if i > 0 || r.c.ObjStmPad {
 			n := 1
 			if r.c.ObjStmPad {
 				n += r.rng.Intn(3)
@@ -450,11 +462,13 @@ func (r *renderer) objStm(num uint32, ops []*Op) *phys {
 			}
 			break
 		}
-		sub.buf.Write(b[:lead])
+		if !tight {
+			sub.buf.Write(b[:lead])
+		}
 		offs = append(offs, sub.buf.Len())
 		sub.buf.Write(b[lead:])
 	}
-	if r.c.ObjStmPad && r.rng.Intn(2) == 0 {
+	if r.c.ObjStmPad && !tight && r.rng.Intn(2) == 0 {
 		sub.buf.WriteString("\n")
 	}
 	// objects start at offset 0 relative to /First only if nothing precedes
@@ -462,15 +476,32 @@ func (r *renderer) objStm(num uint32, ops []*Op) *phys {
 	var hdr bytes.Buffer
 	for i, op := range ops {
 		if i > 0 {
-			hdr.WriteString([]string{" ", "\n", " ", "\r\n"}[r.rng.Intn(4)])
+			if tight {
+				hdr.WriteByte(' ')
+			} else {
+				hdr.WriteString([]string{" ", "\n", " ", "\r\n"}[r.rng.Intn(4)])
+			}
 		}
 		fmt.Fprintf(&hdr, "%d", op.Num)
-		hdr.WriteString([]string{" ", "  ", "\t"}[r.rng.Intn(3)])
+		if tight {
+			hdr.WriteByte(' ')
+		} else {
+			hdr.WriteString([]string{" ", "  ", "\t"}[r.rng.Intn(3)])
+		}
 		fmt.Fprintf(&hdr, "%d", offs[i])
 	}
-	hdr.WriteString([]string{" ", "\n", "\r\n"}[r.rng.Intn(3)])
-	if r.c.ObjStmPad {
-		hdr.WriteString("   "[:r.rng.Intn(3)])
+	switch {
+	case tight:
+		// the table may run into the first object if that starts with a
+		// delimiter; a regular character would extend the last offset
+		if sb := sub.buf.Bytes(); len(sb) == 0 || !isDelim(sb[0]) {
+			hdr.WriteByte(' ')
+		}
+	default:
+		hdr.WriteString([]string{" ", "\n", "\r\n"}[r.rng.Intn(3)])
+		if r.c.ObjStmPad {
+			hdr.WriteString("   "[:r.rng.Intn(3)])
+		}
 	}
 	first := hdr.Len()
 	data := append(hdr.Bytes(), sub.buf.Bytes()...)
